@@ -108,3 +108,69 @@ Section Buffer.
   (* StripedScores::offset uses rows() *)
   Definition buf_offset (b : buffer) (rc : coord) : nat := snd rc * brows b + fst rc.
 End Buffer.
+
+(* ---- statement skeletons read from the source (translate/maxi_tables.py -> GenMaxi.v) ---- *)
+
+(* the statements of `DenseMatrix::resize(&mut self, rows)` *)
+Inductive dense_stmt :=
+| DResizeWithDefault           (* self.data.resize_with(rows, Default::default); *)
+| DResizeWithDefaultIfLonger   (* if rows > self.data.len() { self.data.resize_with(rows, ..) } *)
+| DTruncate                    (* self.data.truncate(rows); *)
+| DSetRows.                    (* self.rows = rows; *)
+
+(* what `dense::Iter::new(matrix)` iterates over *)
+Inductive iter_source :=
+| IterData                     (* matrix.data.iter() *)
+| IterDataTakeRows.            (* matrix.data[..matrix.rows].iter() / .iter().take(matrix.rows) *)
+
+(* the statements of `StripedScores::resize(&mut self, rows, max_index)` *)
+Inductive scores_stmt :=
+| SDataResize                  (* self.data.resize(rows); *)
+| SSetMaxIndex.                (* self.max_index = max_index; *)
+
+(* what the default scalar scans (Maximum::argmax, Threshold::threshold) loop over *)
+Inductive scan_source :=
+| ScanMatrixIter               (* for (i, row) in scores.matrix().iter().enumerate() *)
+| ScanRowsIndex.               (* for i in 0..scores.matrix().rows() { let row = &scores.matrix()[i]; *)
+
+Section Skeleton.
+  Context {T : Type}.
+  Variable dflt : T.
+  Variable C : nat.
+
+  Definition dense_stmt_exec (n : nat) (b : @buffer T) (s : dense_stmt) : @buffer T :=
+    match s with
+    | DResizeWithDefault => {| bdata := vec_resize dflt C (bdata b) n; brows := brows b; bmi := bmi b |}
+    | DResizeWithDefaultIfLonger =>
+        {| bdata := vec_resize_grow_only dflt C (bdata b) n; brows := brows b; bmi := bmi b |}
+    | DTruncate => {| bdata := firstn n (bdata b); brows := brows b; bmi := bmi b |}
+    | DSetRows => {| bdata := bdata b; brows := n; bmi := bmi b |}
+    end.
+
+  Definition dm_resize_of (stmts : list dense_stmt) (b : @buffer T) (n : nat) : @buffer T :=
+    fold_left (dense_stmt_exec n) stmts b.
+
+  Definition scores_stmt_exec (dense : list dense_stmt) (n : nat) (mi : N) (b : @buffer T) (s : scores_stmt)
+    : @buffer T :=
+    match s with
+    | SDataResize => dm_resize_of dense b n
+    | SSetMaxIndex => {| bdata := bdata b; brows := brows b; bmi := mi |}
+    end.
+
+  Definition ss_resize_of (dense : list dense_stmt) (stmts : list scores_stmt) (b : @buffer T) (n : nat) (mi : N)
+    : @buffer T :=
+    fold_left (scores_stmt_exec dense n mi) stmts b.
+
+  Definition b_iter_of (src : iter_source) (b : @buffer T) : list (list T) :=
+    match src with
+    | IterData => bdata b
+    | IterDataTakeRows => firstn (brows b) (bdata b)
+    end.
+
+  Definition scan_rows_of (it : iter_source) (src : scan_source) (b : @buffer T) : list (list T) :=
+    match src with
+    | ScanMatrixIter => b_iter_of it b
+    | ScanRowsIndex => firstn (brows b) (bdata b)
+    end.
+End Skeleton.
+
